@@ -25,7 +25,7 @@ def ideal(cfg, workers=8):
 def make(pid, quick, thorough, rule, max_paths_quick=1500, neg=None):
     def run(tier, seed):
         cfgs = quick if tier == "quick" else thorough
-        viol, cov = core_engine.run_cfgs(pid, cfgs, seed, max_paths=max_paths_quick if tier == "quick" else None)
+        viol, cov = core_engine.run_cfgs(pid, cfgs, seed, max_paths=(max_paths_quick // len(cfgs)) if tier == "quick" else None)
         mine = [v for v in viol if v.get("prop") is None or pid in v["prop"]]
         ires = ideal("Ideal_quick.cfg" if tier == "quick" else "Ideal_thorough.cfg")
         cov["ideal_design"] = {"cfg": "Ideal_" + tier, "distinct_states": ires.distinct, "states_generated": ires.generated,
